@@ -209,7 +209,7 @@ def thread_roles(res, nprod):
 # ---- oracle (model-free) -----------------------------------------------------------------------------
 
 def oracle(case, res, obs):
-    bad = []
+    bad = ["the writer changed process-wide state: %s" % c for c in getattr(res, "state_changes", [])]
     nprod = len(case["producers"])
     callers = set(range(nprod + 1))
     for t, name in sorted(obs["errors"].items()):
